@@ -48,6 +48,13 @@ func simDebugMain(args []string) int {
 			}
 		}
 	}
+	if vkArg(args, "fair", "") != "" {
+		rounds, problem := fairContinuation(s, vkArgInt(args, "rounds", 40))
+		fmt.Println(strings.Join(s.w.trace, "\n"))
+		fmt.Printf("fair continuation: rounds=%d problem=%q\n", rounds, problem)
+		fmt.Println(s.w.canon(s.cnt))
+		return 0
+	}
 	if vkArg(args, "expand", "") != "" {
 		hist := append([]simEvent(nil), s.hist...)
 		resp := expandState(sc, &expandReq{Hist: hist})
